@@ -513,6 +513,49 @@ func batch(r *vh.Run, i int) {
 		e.mu.Unlock()
 		_ = os.RemoveAll(root2)
 	}
+	// paged referrers answers are kept in a cache of the server: a page of repository pa's answer must not be handed
+	// out through another repository, whatever cache digest and page number the request carries
+	{
+		c3 := vh.Conf(vh.Mem, "", vh.Neutral)
+		c3.API.Referrer.Limit = 700
+		s3 := vh.New(c3)
+		cfgb := &vh.Blob{Name: "pcfg", B: []byte(fmt.Sprintf(`{"p":%d}`, i))}
+		cfgb.D = vh.DigestOf("sha256", cfgb.B)
+		subj := vh.MkImage("psubj", "sha256", vh.MTImage, cfgb, vh.MTConfig, nil, "", "", map[string]string{"p": fmt.Sprint(i)})
+		var arts []*vh.Man
+		for _, rp := range []string{"pa", "pb"} {
+			vh.Do(s3, vh.Req{Method: "POST", URL: "/v2/" + rp + "/blobs/uploads/?digest=" + cfgb.D, Body: cfgb.B})
+			vh.Do(s3, vh.Req{Method: "PUT", URL: "/v2/" + rp + "/manifests/" + subj.D, H: map[string]string{"Content-Type": subj.MT}, Body: subj.Raw})
+		}
+		for k := 0; k < 6; k++ {
+			a := vh.MkImage(fmt.Sprintf("part%d", k), "sha256", vh.MTImage, cfgb, vh.MTConfig, nil, subj.D, "application/x.a", map[string]string{"k": fmt.Sprint(k), "p": fmt.Sprint(i)})
+			arts = append(arts, a)
+			vh.Do(s3, vh.Req{Method: "PUT", URL: "/v2/pa/manifests/" + a.D, H: map[string]string{"Content-Type": a.MT}, Body: a.Raw})
+		}
+		first := vh.Do(s3, vh.Req{Method: "GET", URL: "/v2/pa/referrers/" + subj.D})
+		link := first.H.Get("Link")
+		if ci := strings.Index(link, "cache="); first.Status == 200 && ci >= 0 {
+			cache := link[ci+6:]
+			if j := strings.IndexAny(cache, "&>"); j >= 0 {
+				cache = cache[:j]
+			}
+			for _, rp := range []string{"pb", "pc", "pa/x"} {
+				for pg := 1; pg <= 3; pg++ {
+					rq := vh.Req{Method: "GET", URL: fmt.Sprintf("/v2/%s/referrers/%s?cache=%s&page=%d", rp, subj.D, cache, pg)}
+					rs := vh.Do(s3, rq)
+					r.Count("referrer_page_cache_probes", 1)
+					for _, a := range arts {
+						if rs.Status == 200 && strings.Contains(string(rs.Body), a.D) {
+							viol("isolation:referrers-page-cache", fmt.Sprintf("GET %s lists %s, an artifact that was pushed to repository pa only (the page comes from the server's cache of pa's paged answer)", rq.URL, vh.Short(a.D)))
+							ok = false
+							break
+						}
+					}
+				}
+			}
+		}
+		_ = s3.Close()
+	}
 	r.Count("batches", 1)
 	e.mu.Lock()
 	r.Count("fs_events_checked", e.nev)
